@@ -1,6 +1,7 @@
 package grammar
 
 import (
+	"strconv"
 	"fmt"
 	"go/constant"
 	"go/types"
@@ -230,11 +231,16 @@ func (s *shaper) wrap(g *G) *elem {
 		value absint.Val
 	}
 	var cands []cand
-	sticky, _ := e.constStr("lexer", "stickyChars")
-	nonSticky, _ := e.constStr("lexer", "nonStrickyChars")
+	sticky, okS := e.constStr("lexer", "stickyChars")
+	nonSticky, okN := e.constStr("lexer", "nonStrickyChars")
 	switch g.Kind {
 	case "tok":
 		switch {
+		case !okS || !okN:
+			// no character class constants: the lexer itself says what the literal is
+			if k := e.lexKind(g.Str); k != "" {
+				cands = append(cands, cand{k, absint.MkString(g.Str)})
+			}
 		case allIn(g.Str, sticky):
 			cands = append(cands, cand{"Sticky", absint.MkString(g.Str)})
 		case len(g.Str) == 1 && strings.Contains(nonSticky, g.Str):
@@ -277,6 +283,7 @@ func (s *shaper) wrap(g *G) *elem {
 			in.Globals = e.globals
 			in.Hooks.Call = s.stdHooks()
 			in.Hooks.Branch = s.nameBranch
+			in.Hooks.Lookup = s.nameLookup
 			z := absint.Zero(tokT).(*absint.Struct)
 			f := append([]absint.Val(nil), z.F...)
 			for i := 0; i < tst.NumFields(); i++ {
@@ -410,6 +417,60 @@ func (s *shaper) nameBranch(in *absint.Interp, cond absint.Val, site ssa.Instruc
 	return false, false
 }
 
+// nameLookup: a table of the package indexed by the unknown variable name (a
+// set of operators, a map of the boolean literals): the name may be any key
+// the name predicate does not refuse, or none.
+func (s *shaper) nameLookup(in *absint.Interp, m, k absint.Val, commaOk bool, site ssa.Instruction) (absint.Val, bool) {
+	kv, ok := k.(*absint.Sym)
+	if !ok || kv.Op != "var" || kv.Name != "NAME" {
+		return nil, false
+	}
+	var mm *absint.Map
+	switch x := m.(type) {
+	case *absint.Map:
+		mm = x
+	default:
+		return nil, false
+	}
+	var keys []string
+	for kk := range mm.M {
+		excluded := false
+		for w := range s.notNames {
+			if kk == absint.Key(absint.MkString(w)) {
+				excluded = true
+			}
+		}
+		// only words the lexer scans as names can be the text of a name token
+		if str, isStr := unquoteKey(kk); isStr && !allLower(str) {
+			excluded = true
+		}
+		if !excluded {
+			keys = append(keys, kk)
+		}
+	}
+	sort.Strings(keys)
+	elemT := site.(*ssa.Lookup).X.Type().Underlying().(*types.Map).Elem()
+	c := in.Oracle.Choose(len(keys)+1, "the name is a key of the table")
+	var res absint.Val = absint.Zero(elemT)
+	found := false
+	if c < len(keys) {
+		res, found = mm.M[keys[c]], true
+	}
+	if commaOk {
+		return &absint.Tuple{E: []absint.Val{res, absint.MkBool(found)}}, true
+	}
+	return res, true
+}
+
+func unquoteKey(k string) (string, bool) {
+	if len(k) >= 2 && k[0] == '"' && k[len(k)-1] == '"' {
+		if s, err := strconv.Unquote(k); err == nil {
+			return s, true
+		}
+	}
+	return "", false
+}
+
 // apply runs a transformer on one sequence of elements.
 func (s *shaper) apply(g *G, q seq) []seq {
 	e := s.e
@@ -457,6 +518,7 @@ func (s *shaper) apply(g *G, q seq) []seq {
 		}
 		in.Hooks.Call = s.stdHooks()
 		in.Hooks.Branch = s.nameBranch
+		in.Hooks.Lookup = s.nameLookup
 		in.Hooks.TypeAssert = func(in *absint.Interp, v absint.Val, asserted types.Type, commaOk bool, site ssa.Instruction) (absint.Val, bool) {
 			x, ok := v.(*elem)
 			if !ok {
